@@ -1017,8 +1017,8 @@ func extrapolateStatementWithPairedComponents(s *tree.Statement, pairs []string)
 			// Complete decomposed partial statement with parsed linear statement (can only be one statement in decomposed pair combinations)
 			tpNode[0].Entry = tree.CopyComponentsFromStatement(tpNode[0].Entry.(*tree.Statement), s)
 
-			// Assign statement to statement tree (top-level extrapolated structure)
-			v2.Parent = idvStmt
+			// The leaf keeps its position in the tree of the pair combination (its parent is the node carrying
+			// the logical operator it is directly linked by, which for three or more pairs is not the root)
 
 			// Replace Entry content
 			v2.Entry = tpNode
